@@ -455,6 +455,13 @@ func slowWriterBurst(l *live, k int) {
 			if i == 21 {
 				expect++
 			}
+		case i%8 == 6: // registrations and authentications wait their turn like everything else
+			if i%16 == 6 {
+				burst = append(burst, t.frame(0x0100, append(make([]byte, 25+8), []byte("A12345")...))...)
+			} else {
+				burst = append(burst, t.frame(0x0102, asciiDigits(phone))...)
+			}
+			expect++
 		case i%2 == 0:
 			burst = append(burst, t.frame(0x0002, nil)...)
 			expect++
@@ -474,6 +481,21 @@ func slowWriterBurst(l *live, k int) {
 	ok := t.waitRecv(expect, 8*time.Second)
 	l.writeHold.Store(nil)
 	l.rec.log(t.idx, "D", "assert", "ok", ok, "what", "MessagesLostBehindABusyWriter")
+	// as many frames as fit one read: 66 heartbeats of 15 bytes (a few more when a serial or check code needs escaping) in a
+	// single write of at most 1023 bytes
+	var many []byte
+	nmany := 0
+	for ; nmany < 66; nmany++ {
+		f := t.frame(0x0002, nil)
+		if len(many)+len(f) > 1023 {
+			break
+		}
+		many = append(many, f...)
+	}
+	t.send(many)
+	expect += int64(nmany)
+	ok = t.waitRecv(expect, 8*time.Second)
+	l.rec.log(t.idx, "D", "assert", "ok", ok, "what", "FramesOfOneReadNotAllDelivered")
 	time.Sleep(30 * time.Millisecond)
 	l.rec.log(t.idx, "D", "end")
 	t.close(false)
@@ -486,7 +508,9 @@ func slowWriterBurst(l *live, k int) {
 // the requests as they come in, the verdict is one observation for Trace_Conn.)
 func pausedReader(l *live) {
 	phone := []byte{0x01, 0x31, 0x00, 0x00, 0x05, 0x01}
+	noReadRcvBuf.Store(256 << 10)
 	t := l.dialWith(phone, 0, true)
+	noReadRcvBuf.Store(2048)
 	var progress atomic.Int64
 	l.muted.Store(t.idx, &progress)
 	n := 300000 // (6 MB of replies: more than the kernel will buffer for a peer that does not read)
@@ -518,7 +542,7 @@ func pausedReader(l *live) {
 	got, bad := 0, ""
 	buf := make([]byte, 65536)
 	var acc []byte
-	t.conn.SetReadDeadline(time.Now().Add(20 * time.Second))
+	t.conn.SetReadDeadline(time.Now().Add(60 * time.Second))
 	for got < n && bad == "" {
 		k, err := t.conn.Read(buf)
 		if err != nil {
